@@ -52,6 +52,10 @@ class C18(InterpProp):
                 if op[0] == 'queue' and rnd.random() < 0.7:
                     op[2]['data'] = [kv for kv in op[2]['data'] if kv[0] != 'delay'] + \
                         [['box', {'list': [0]}], ['delay', rnd.randint(1, 3)]]
+        mut = rnd.random() < 0.15
+        if mut:
+            # context values that are mutable, some nested, changed in place and compared with __old__
+            gen.add_mutables(rnd, sc, cell=False)
         enc = ChartEnc(sc)
         ops = [['create', 0, False, [], 0], ['create', 0, False, [], 0]]
         watch = rnd.random() < 0.2
@@ -63,7 +67,8 @@ class C18(InterpProp):
             ops += [['bindwatch', 0, st, d], ['bindwatch', 1, st, d]]
         groups = []
         subjects = [0]          # slots holding the interpreter under test and the copies that go on beside it
-        side_by_side = box or rnd.random() < 0.2
+        side_by_side = box or mut or rnd.random() < 0.2
+        copy_first = rnd.random() < 0.5
         p_snap = 1.0 if tier == 'thorough' and rnd.random() < 0.3 else rnd.choice([0.1, 0.25, 0.5])
         for op in ops1:
             if op[0] == 'exec' and rnd.random() < p_snap:
@@ -74,7 +79,11 @@ class C18(InterpProp):
                 ops.append(['snapshot', 1, 'none'])
                 groups.append([len(ops) - 2, len(ops) - 1])
                 if how.endswith('-both'):
-                    subjects.insert(0, 1 + len(subjects))     # the copy gets the next slot and runs first
+                    # the copy gets the next slot; it runs before the original, or after it
+                    if copy_first:
+                        subjects.insert(0, 1 + len(subjects))
+                    else:
+                        subjects.append(1 + len(subjects))
             grp = []
             for sl in subjects + [1]:
                 op2 = list(op)
@@ -83,7 +92,10 @@ class C18(InterpProp):
                 grp.append(len(ops) - 1)
             groups.append(grp)
         payload = {'kind': 'interp', 'charts': [enc.json], 'ops': ops, 'groups': groups}
-        return Case(payload, {'charts': [sc]}, model_ok=enc.supported and len(subjects) == 1 and not box and not watch)
+        if rnd.random() < 0.15:
+            # the interpreters' clocks are playing while the snapshot is taken (scripted real time)
+            payload['running_clock'] = True
+        return Case(payload, {'charts': [sc]}, model_ok=enc.supported and len(subjects) == 1 and not box and not watch and not mut)
 
     def shrink_candidates(self, case):
         p = case.payload
